@@ -128,4 +128,21 @@ Proof.
   apply src_cleanup_eq. now apply mwf_keys_ok.
 Qed.
 
+(* ---- clone / verify ------------------------------------------------------------------------------ *)
+Lemma mwf_empty : mwf eqb (@empty_mgr K A).
+Proof. unfold mwf, empty_mgr. cbn [m_rdeps m_rtasks m_deptasks m_tartasks]. pose proof (idx_wf_nil eqb) as Hnil. tauto. Qed.
+
+Theorem src_clone_eq (m : mgrT) : src_clone eqb m = Ok (clone eqb m).
+Proof.
+  unfold src_clone, clone, seq.
+  destruct (tasks_loop_register (m_tasks m) empty_mgr mwf_empty eq_refl) as (E & W). rewrite E.
+  apply src_cleanup_eq. now apply mwf_keys_ok.
+Qed.
+
+Theorem src_verify_eq (m : mgrT) : keys_ok m -> src_verify eqb m = verify eqb m.
+Proof.
+  intros Hk. unfold src_verify, verify. rewrite (src_cleanup_eq m Hk), src_clone_eq.
+  cbn [forallb ix_get]. unfold verify_index. rewrite andb_true_r, !andb_assoc. reflexivity.
+Qed.
+
 End R.
